@@ -640,7 +640,15 @@ func (ls *LState) raiseError(level int, format string, args ...interface{}) {
 		message = fmt.Sprintf(format, args...)
 	}
 	if level > 0 {
-		message = fmt.Sprintf("%v %v", ls.where(level-1, true), message)
+		// level 1 is the function that raised the error. When a Go function
+		// raises (error(), RaiseError) that function is itself frame 0, so the
+		// Lua function at level n is frame n; when the VM raises, the running
+		// Lua function is frame 0.
+		lv := level - 1
+		if ls.currentFrame != nil && ls.currentFrame.Fn.IsG {
+			lv = level
+		}
+		message = fmt.Sprintf("%v %v", ls.where(lv, true), message)
 	}
 	if ls.reg.IsFull() {
 		// if the registry is full then it won't be possible to push a value, in this case, force a larger size
